@@ -62,7 +62,7 @@ def _is_loop_polygon(ctx, fi, geom, poly_var) -> bool:
     return False
 
 
-def _polygon_iteration(ctx, fi):
+def _polygon_iteration(ctx, fi, whole_ok=False):
     """Find the iteration over dataset.ems.polygons in fi.
 
     Returns dict(kind, node, index_var, poly_var, iter_expr, filter_ok, enumerated) or None.
@@ -90,6 +90,33 @@ def _polygon_iteration(ctx, fi):
         return (isinstance(t, ast.Compare) and len(t.ops) == 1 and isinstance(t.ops[0], ast.Is) and is_none(t.comparators[0])
                 and isinstance(t.left, ast.Name) and t.left.id == var)
 
+    # the cells that have a polygon, by the convention's own mask (mask[n] = polygons[n] is not None: R02.5 / R06.10):
+    # `for i in numpy.flatnonzero(dataset.ems.mask): polygon = polygons[i]`, or `polygons[mask]` taken as a whole
+    def ems_member(e, member) -> bool:
+        v = flow.resolve(e)
+        from .common import expand_locals as _xl15
+        try:
+            v = _xl15(flow, v)
+        except Exception:
+            pass
+        return norm_text(v) == f"{fi.params[0]}.ems.{member}"
+
+    for node in ast.walk(fi.node):
+        if isinstance(node, ast.For) and isinstance(node.target, ast.Name):
+            itx = flow.resolve(node.iter)
+            while isinstance(itx, ast.Call) and ((isinstance(itx.func, ast.Attribute) and itx.func.attr == 'tolist' and not itx.args) or (dotted(itx.func) in ('list', 'tuple') and len(itx.args) == 1)):
+                itx = flow.resolve(itx.func.value if isinstance(itx.func, ast.Attribute) else itx.args[0])
+            if isinstance(itx, ast.Call) and (callee(ctx, fi, itx) or '') == 'numpy.flatnonzero' and len(itx.args) == 1 and ems_member(itx.args[0], 'mask'):
+                picks = [st for st in node.body if isinstance(st, ast.Assign) and len(st.targets) == 1 and isinstance(st.targets[0], ast.Name)
+                         and isinstance(st.value, ast.Subscript) and norm_text(st.value.slice) == node.target.id and ems_member(st.value.value, 'polygons')]
+                breaks = [n for n in ast.walk(node) if isinstance(n, (ast.Break, ast.Return, ast.Continue))]
+                if len(picks) == 1 and not breaks:
+                    return dict(kind='for', node=node, index_var=node.target.id, poly_var=picks[0].targets[0].id, iter_ok=True, filter_ok=True,
+                                enumerated=True, elt=None, iter_text=norm_text(node.iter), filter_text=['positions where dataset.ems.mask is set'])
+        # (only where no position is attached to the entries: a compacted copy has other positions than the cells)
+        if whole_ok and isinstance(node, ast.Subscript) and isinstance(node.ctx, ast.Load) and ems_member(node.value, 'polygons') and ems_member(node.slice, 'mask'):
+            return dict(kind='masked', node=node, index_var=None, poly_var=None, iter_ok=True, filter_ok=True, enumerated=False, elt=None,
+                        iter_text=norm_text(node), filter_text=['entries where dataset.ems.mask is set'])
     for node in ast.walk(fi.node):
         if isinstance(node, (ast.GeneratorExp, ast.ListComp)) and len(node.generators) == 1:
             g = node.generators[0]
@@ -155,7 +182,7 @@ def run(ctx: Context) -> None:
     ws = ctx.func(f"{GEO}.write_shapefile")
     mp = ctx.func(f"{GEO}._to_multipolygon")
     for fi in (tg, ws, mp):
-        it = _polygon_iteration(ctx, fi)
+        it = _polygon_iteration(ctx, fi, whole_ok=fi is mp)
         ctx.need('R15.1', it is not None, f"{fi.short} iterates the dataset's polygons", fi)
         ctx.check('R15.1', it['iter_ok'], "the iteration runs over dataset.ems.polygons itself, from position 0", fi, it['node'],
                   construct=f"{fi.short}: iterates {it['iter_text']}")
@@ -261,11 +288,14 @@ def run(ctx: Context) -> None:
             ctx.check('R15.2', {'linear_index', 'index'} <= set(fields), "the attribute table has linear_index and index fields", fi, fi.node,
                       construct=f"fields {fields}")
         if fi is mp:
-            elt_ok = it['kind'] == 'comp' and isinstance(it['elt'], ast.Name) and it['elt'].id == it['poly_var']
+            elt_ok = (it['kind'] == 'comp' and isinstance(it['elt'], ast.Name) and it['elt'].id == it['poly_var']) or it['kind'] == 'masked'
             rets = fi.returns()
-            ok = elt_ok and rets and isinstance(flow.resolve(rets[0].value), ast.Call) \
-                and (callee(ctx, fi, flow.resolve(rets[0].value)) or '').endswith('MultiPolygon') \
-                and flow.resolve(rets[0].value).args and flow.resolve(flow.resolve(rets[0].value).args[0]) is it['node']
+            made = flow.resolve(rets[0].value) if rets else None
+            src_ = flow.resolve(made.args[0]) if isinstance(made, ast.Call) and made.args else None
+            while it['kind'] == 'masked' and isinstance(src_, ast.Call) and ((isinstance(src_.func, ast.Attribute) and src_.func.attr == 'tolist' and not src_.args)
+                                                                             or (dotted(src_.func) in ('list', 'tuple') and len(src_.args) == 1)):
+                src_ = flow.resolve(src_.func.value if isinstance(src_.func, ast.Attribute) else src_.args[0])
+            ok = elt_ok and rets and isinstance(made, ast.Call) and (callee(ctx, fi, made) or '').endswith('MultiPolygon') and src_ is it['node']
             ctx.check('R15.4', bool(ok), "_to_multipolygon is the MultiPolygon of the cells, in order", fi, rets[0] if rets else fi.node)
 
     # writers
